@@ -99,7 +99,7 @@ fn c16_serve_sync_rejects_other_cluster() {
 
 /// sync partners and broadcast targets are same-cluster members other than ourselves
 #[kani::proof]
-#[kani::unwind(6)]
+#[kani::unwind(18)]
 fn c16_sync_partners_and_broadcast_targets_same_cluster() {
     let me = actor(1);
     let agent = Agent { actor_id: me, cluster_id: ClusterId(kani::any()) };
